@@ -10,16 +10,16 @@ use check::{run_families, Family};
 
 fn families(prop: &str, tier: &str) -> Option<Vec<Family>> {
     Some(match prop {
-        "C01" => props::c01(tier),
+        "C01" => props::with_flavours(props::c01(tier), &["deadline_boundaries"], tier),
         "C02" => props::c02(tier),
-        "C03" => props::c03(tier),
+        "C03" => props::with_flavours(props::c03(tier), &["port_kinds", "connection_orders", "scheduler_batches"], tier),
         "C04" => props::c04(tier),
         "C05" => props::c05(tier),
         "C06" => props::c06(tier),
-        "C07" => props::c07(tier),
-        "C08" => props::c08(tier),
-        "C09" => props::c09(tier),
-        "C10" => props::c10(tier),
+        "C07" => props::with_flavours(props::c07(tier), &["driver_origin", "model_origin"], tier),
+        "C08" => props::with_flavours(props::c08(tier), &["request_validation"], tier),
+        "C09" => { let f = props::c09(tier); let names: Vec<&str> = f.iter().map(|x| x.name).collect(); props::with_flavours(f, &names, tier) }
+        "C10" => { let f = props::c10(tier); let names: Vec<&str> = f.iter().map(|x| x.name).collect(); props::with_flavours(f, &names, tier) }
         "C11" => props::c11(tier),
         "C14" => props::c14(tier),
         "C16" => props::c16(tier),
